@@ -1,8 +1,16 @@
 package main
 
 import (
+	"bufio"
+	"bytes"
 	"errors"
+	"fmt"
 	"io"
+	"os"
+	"os/exec"
+	"runtime"
+	"strconv"
+	"strings"
 	"sync"
 	"time"
 
@@ -54,6 +62,7 @@ type evCluster struct {
 	nodes   map[uint64]*evNode
 	calls   map[[2]uint64]*evCall // the latest call per link
 	leaders int
+	lost    bool // the script lost control of the cluster's timing: it ends
 }
 
 type evTrans struct {
@@ -245,12 +254,59 @@ func (c *evCluster) snapshot() []uint64 {
 	return out
 }
 
+// evQuiet: every goroutine of the process but the caller is blocked (select, channel, timer,
+// mutex ...): nothing can move until the script does something.  Decisive whatever the machine
+// load, provided nothing else runs in this process (the scripts run in child processes, one at a
+// time).  Leaders' replication goroutines wake on their back-off timers, fail (no AppendEntries
+// is delivered) and block again; they never change what is observed.
+var evStackBuf = make([]byte, 4<<20)
+
+func evQuiet() bool {
+	n := runtime.Stack(evStackBuf, true)
+	running, active := 0, 0
+	for _, blk := range bytes.Split(evStackBuf[:n], []byte("\n\n")) {
+		if !bytes.HasPrefix(blk, []byte("goroutine ")) {
+			continue
+		}
+		i, j := bytes.IndexByte(blk, '['), bytes.IndexByte(blk, ']')
+		if i < 0 || j < i {
+			continue
+		}
+		st := blk[i+1 : j]
+		switch {
+		case bytes.HasPrefix(st, []byte("running")):
+			running++
+		case bytes.HasPrefix(st, []byte("runnable")):
+			active++
+		case bytes.HasPrefix(st, []byte("syscall")):
+			if !bytes.Contains(blk, []byte("os/signal")) {
+				active++
+			}
+		}
+	}
+	return running <= 1 && active == 0
+}
+
+var evAlone = false // set in the child processes: the quiescence test is meaningful
+var evFallbacks = 0
+
 // wait until nothing moves any more
 func (c *evCluster) settle() []uint64 {
 	var prev []uint64
 	same := 0
-	for i := 0; i < 400 && same < 4; i++ {
+	quietSeen := !evAlone
+	for i := 0; i < 4000 && !(same >= 4 && quietSeen); i++ {
 		time.Sleep(150 * time.Microsecond)
+		if evAlone {
+			quietSeen = evQuiet()
+			if !quietSeen {
+				same = 0
+				if i == 3999 {
+					evFallbacks++
+				}
+				continue
+			}
+		}
 		cur := c.snapshot()
 		c.mu.Lock()
 		cur = append(cur, uint64(len(c.calls)))
@@ -309,14 +365,20 @@ func (c *evCluster) do(op []uint64) bool {
 			t0 := n.r.CurrentTerm()
 			// long enough that the timer of the NEXT invocation cannot fire before it is set back to one hour
 			n.r.VerifSetElectionTimeout(15 * time.Millisecond)
-			c17wait(func() bool { return n.r.CurrentTerm() > t0 || n.r.State() != raft.Candidate }, 400*time.Millisecond)
+			c17wait(func() bool { return n.r.CurrentTerm() > t0 || n.r.State() != raft.Candidate }, 2*time.Second)
 			n.r.VerifSetElectionTimeout(time.Hour)
+			if n.r.CurrentTerm() > t0+1 {
+				// the short timer fired more than once before it was set back (the process was
+				// descheduled for longer than the timeout): the script has lost control, it ends here
+				c.lost = true
+				return false
+			}
 		default:
 			n.r.VerifFireHeartbeatTimeout()
-			c17wait(func() bool { return n.r.State() != raft.Follower }, 200*time.Millisecond)
+			c17wait(func() bool { return n.r.State() != raft.Follower }, 2*time.Second)
 		}
 		// the new invocation has asked every peer
-		c17wait(func() bool { return n.r.State() == raft.Leader || len(c.pendingFrom(n.id, 0)) == c.n-1 }, 200*time.Millisecond)
+		c17wait(func() bool { return n.r.State() == raft.Leader || len(c.pendingFrom(n.id, 0)) == c.n-1 }, 2*time.Second)
 	case 2:
 		c.mu.Lock()
 		k := c.calls[[2]uint64{op[1], op[2]}]
@@ -325,7 +387,7 @@ func (c *evCluster) do(op []uint64) bool {
 			return false
 		}
 		k.deliver <- true
-		c17wait(func() bool { c.mu.Lock(); defer c.mu.Unlock(); return k.stage == 1 }, 500*time.Millisecond)
+		c17wait(func() bool { c.mu.Lock(); defer c.mu.Unlock(); return k.stage == 1 }, 2*time.Second)
 	case 3:
 		c.mu.Lock()
 		k := c.calls[[2]uint64{op[1], op[2]}]
@@ -334,7 +396,7 @@ func (c *evCluster) do(op []uint64) bool {
 			return false
 		}
 		k.respGo <- true
-		c17wait(func() bool { c.mu.Lock(); defer c.mu.Unlock(); return k.stage == 2 }, 500*time.Millisecond)
+		c17wait(func() bool { c.mu.Lock(); defer c.mu.Unlock(); return k.stage == 2 }, 2*time.Second)
 	case 4:
 		req := &raft.RequestVoteRequest{RPCHeader: raft.RPCHeader{ProtocolVersion: 3, ID: []byte(idStr(op[3])), Addr: []byte(addrStr(op[3]))},
 			Term: op[2], LastLogIndex: op[4], LastLogTerm: op[5]}
@@ -366,6 +428,9 @@ func c01clRun(extras []uint64, ops [][]uint64) (in []uint64, obs []uint64, leade
 	c.settle()
 	in = append([]uint64{uint64(len(extras))}, extras...)
 	for _, op := range ops {
+		if c.lost {
+			break
+		}
 		if !c.do(op) {
 			continue
 		}
@@ -394,7 +459,7 @@ func c01clGen(r *rng, n int, steps int) (in []uint64, obs []uint64, leaders int)
 		obs = append(obs, 1)
 		obs = append(obs, c.settle()...)
 	}
-	for s := 0; s < steps; s++ {
+	for s := 0; s < steps && !c.lost; s++ {
 		var cands [][]uint64
 		for i := uint64(1); i <= uint64(n); i++ {
 			if c.nodes[i].r.State() != raft.Leader {
@@ -450,37 +515,99 @@ func c01clExec(cw *caseWriter, tag string, in []uint64) {
 	cw.emit(tag, 1, in2, obs, leaders >= 1)
 }
 
+// The scripts run in child processes (harness c01clbatch), one script at a time per process, so
+// that "every goroutine is blocked" is a usable definition of quiescence (evQuiet).
+//
+//	stdin : lines "tag subseed"      stdout: lines "tag leaders nin in... nobs obs..." ; "#fallbacks k"
+func c01clBatch() {
+	evAlone = true
+	sc := bufio.NewScanner(os.Stdin)
+	w := bufio.NewWriter(os.Stdout)
+	defer w.Flush()
+	for sc.Scan() {
+		f := strings.Fields(sc.Text())
+		if len(f) != 2 {
+			continue
+		}
+		subseed, _ := strconv.ParseUint(f[1], 10, 64)
+		sub := &rng{s: subseed}
+		n := 2 + sub.intn(4)
+		steps := 12 + sub.intn(30)
+		in, obs, leaders := c01clGen(sub, n, steps)
+		fmt.Fprintf(w, "%s %d %d", f[0], leaders, len(in))
+		for _, x := range in {
+			fmt.Fprintf(w, " %d", x)
+		}
+		fmt.Fprintf(w, " %d", len(obs))
+		for _, x := range obs {
+			fmt.Fprintf(w, " %d", x)
+		}
+		fmt.Fprintln(w)
+	}
+	fmt.Fprintf(w, "#fallbacks %d\n", evFallbacks)
+}
+
 func runC01cluster(cw *caseWriter, tier string, seed uint64) {
 	r := &rng{s: seed*7919 + 11}
 	count := 250
 	if tier != "quick" {
 		count = 4000
 	}
-	type res struct {
-		tag     string
-		in, obs []uint64
-		leaders int
-	}
-	var mu sync.Mutex
-	sem := make(chan struct{}, 6)
-	var wg sync.WaitGroup
+	const workers = 8
+	var jobs [workers]bytes.Buffer
 	for k := 0; k < count; k++ {
 		tag := cw.tag("e")
-		sub := &rng{s: r.next()}
-		n := 2 + sub.intn(4)
-		steps := 12 + sub.intn(30)
+		fmt.Fprintf(&jobs[k%workers], "%s %d\n", tag, r.next())
+	}
+	var mu sync.Mutex
+	var wg sync.WaitGroup
+	for wk := 0; wk < workers; wk++ {
 		wg.Add(1)
-		sem <- struct{}{}
-		go func() {
+		go func(wk int) {
 			defer wg.Done()
-			defer func() { <-sem }()
-			in, obs, leaders := c01clGen(sub, n, steps)
+			cmd := exec.Command(os.Args[0], "c01clbatch")
+			cmd.Env = append(os.Environ(), "GOMAXPROCS=4")
+			cmd.Stdin = &jobs[wk]
+			cmd.Stderr = os.Stderr
+			out, err := cmd.Output()
 			mu.Lock()
 			defer mu.Unlock()
-			cw.stats["c01cl_scripts"]++
-			cw.stats["c01cl_leader_transitions"] += leaders
-			cw.emit(tag, 1, in, obs, leaders >= 1)
-		}()
+			if err != nil {
+				cw.stats["c01cl_child_errors"]++
+				fmt.Fprintln(os.Stderr, "c01clbatch:", err)
+			}
+			for _, line := range strings.Split(string(out), "\n") {
+				f := strings.Fields(line)
+				if len(f) == 2 && f[0] == "#fallbacks" {
+					k, _ := strconv.Atoi(f[1])
+					cw.stats["c01cl_settle_fallbacks"] += k
+					continue
+				}
+				if len(f) < 4 {
+					continue
+				}
+				leaders, _ := strconv.Atoi(f[1])
+				nin, _ := strconv.Atoi(f[2])
+				if len(f) < 4+nin {
+					continue
+				}
+				in := make([]uint64, nin)
+				for i := range in {
+					in[i], _ = strconv.ParseUint(f[3+i], 10, 64)
+				}
+				nobs, _ := strconv.Atoi(f[3+nin])
+				if len(f) != 4+nin+nobs {
+					continue
+				}
+				obs := make([]uint64, nobs)
+				for i := range obs {
+					obs[i], _ = strconv.ParseUint(f[4+nin+i], 10, 64)
+				}
+				cw.stats["c01cl_scripts"]++
+				cw.stats["c01cl_leader_transitions"] += leaders
+				cw.emit(f[0], 1, in, obs, leaders >= 1)
+			}
+		}(wk)
 	}
 	wg.Wait()
 }
